@@ -180,11 +180,13 @@ P("C12", "proof", "Lean 4 theorems (law B; list lemma on the dot split) + model/
   "no file name means no stem and no extension, and stem/extension split the name at its last dot with the `..` and "
   "leading-dot exceptions so that stem + '.' + extension reproduce the name (stem_ext_split, leading_dot_no_extension; "
   "rsplitDot_spec is the underlying pure list lemma).",
-  "Partial: the with_file_name / set_file_name clause (new file name = n, parent unchanged, or join when there was no "
-  "file name) is decided by the oracle and the correspondence, not by a theorem (it needs the append lemma for both "
-  "encodings; Windows is additionally subject to known finding K3). Model=code by differential testing.",
-  theorems=["TP.C12.file_name_iff_last_normal", "TP.C12.no_file_name_no_stem_ext", "TP.C12.stem_ext_split", "TP.C12.leading_dot_no_extension", "TP.rsplitDot_spec"],
-  modules=["TypedPathVerif.Lemmas.DotSplit"],
+  "For Unix also the replacement clause: replacing the file name by a good single name n gives file name n and a parent "
+  "with the old parent's components, or the join when there was no file name (C12b.unix_with_file_name). "
+  "Partial: the replacement clause for Windows is decided by the oracle and the correspondence, not by a theorem (it "
+  "needs the Windows append lemma and is subject to known finding K3). Model=code by differential testing.",
+  theorems=["TP.C12.file_name_iff_last_normal", "TP.C12.no_file_name_no_stem_ext", "TP.C12.stem_ext_split", "TP.C12.leading_dot_no_extension", "TP.rsplitDot_spec",
+            "TP.C12b.unix_with_file_name"],
+  modules=["TypedPathVerif.Lemmas.DotSplit", "TypedPathVerif.Props.C12b"],
   rule=NONTRIV + "names over {. a b} exhaustively; non-trivial = file name containing a dot / path with a file name", design_ref="§5 C12")
 
 P("C13", "proof", "Lean 4 byte-level theorem (cut at the end of the stem) + model/code correspondence; Unix vs std and name/parent clauses by oracle",
@@ -194,11 +196,16 @@ P("C13", "proof", "Lean 4 byte-level theorem (cut at the end of the stem) + mode
   "token or nothing, i.e. never inside a name, hence on a character boundary of a valid UTF-8 buffer "
   "(set_ext_cut_boundary); without a file name it returns false and leaves the buffer untouched (set_ext_false, "
   "set_ext_true_iff).",
-  "Partial: that the *result re-parses* with file name stem[.x] and the old parent, the equality with "
-  "std::path::PathBuf::set_extension on Unix, repeated application, with_extension = clone + set_extension and the "
-  "UTF-8 copy are decided by the oracle (real std as reference) and the correspondence, not by a theorem. Model=code "
-  "by differential testing incl. multi-byte characters next to every cut.",
-  theorems=["TP.C13.set_ext_bytes", "TP.C13.set_ext_cut_boundary", "TP.C13.set_ext_false", "TP.C13.set_ext_true_iff", "TP.C13.set_ext_total"],
+  "For Unix the result is also proved to re-parse with the old parent's components and the file name stem[.x] "
+  "(C12b.unix_set_ext_comps, unix_set_ext_name_parent; the corner stem in {., ..} with empty x is excluded exactly as "
+  "in std), and the result of a valid UTF-8 buffer is valid UTF-8 (C14.set_extension_valid). "
+  "Partial: the re-parse clause for Windows, the byte equality with std::path::PathBuf::set_extension on Unix, "
+  "repeated application, with_extension = clone + set_extension and the UTF-8 copy are decided by the oracle (real std "
+  "as reference) and the correspondence, not by a theorem. Model=code by differential testing incl. multi-byte "
+  "characters next to every cut.",
+  theorems=["TP.C13.set_ext_bytes", "TP.C13.set_ext_cut_boundary", "TP.C13.set_ext_false", "TP.C13.set_ext_true_iff", "TP.C13.set_ext_total",
+            "TP.C13.set_ext_tokens", "TP.C12b.unix_set_ext_comps", "TP.C12b.unix_set_ext_name_parent", "TP.C14.set_extension_valid"],
+  modules=["TypedPathVerif.Props.C12b", "TypedPathVerif.Props.C14"],
   rule=NONTRIV + "(path, extension) pairs; non-trivial = file name followed by separators or `.`", design_ref="§5 C13")
 
 P("C14", "proof", "Lean 4 theorems (UTF-8 validity is preserved by every byte-level operation and mutation history) + UTF-8 family vs byte family transcripts (delegation) + model/code correspondence",
